@@ -319,7 +319,7 @@ def write_ped(path, trios, family="FAM"):
     return path
 
 
-def write_bam(sc, reads, path, read_groups=True, sort=True, extra_tags=None, unmapped=()):
+def write_bam(sc, reads, path, read_groups=True, sort=True, extra_tags=None, unmapped=(), rg_per_sample=1):
     """Write reads (dicts from simulate_reads; optional keys: mapq, tags [(tag, value)], flag) as an indexed BAM.
     One read group per sample (ID = sample, SM = sample) unless read_groups is False."""
     import pysam
@@ -333,7 +333,12 @@ def write_bam(sc, reads, path, read_groups=True, sort=True, extra_tags=None, unm
         for s in sc.samples:
             if s not in samples:
                 samples.append(s)
-        header["RG"] = [{"ID": s, "SM": s} for s in samples]
+        if rg_per_sample <= 1:
+            header["RG"] = [{"ID": s, "SM": s} for s in samples]
+        else:
+            # several read groups per sample, interleaved in the header (A.0, B.0, A.1, B.1, ...); a read uses the
+            # group given by r["rg"] (index) or, by default, a stable function of its name
+            header["RG"] = [{"ID": f"{s}.{k}", "SM": s} for k in range(rg_per_sample) for s in samples]
     opmap = {"M": 0, "I": 1, "D": 2, "N": 3, "S": 4, "H": 5, "P": 6, "=": 7, "X": 8}
     tid = {c: i for i, c in enumerate(sc.chroms)}
     rs = list(reads)
@@ -357,7 +362,11 @@ def write_bam(sc, reads, path, read_groups=True, sort=True, extra_tags=None, unm
                 a.next_reference_start = r["mate_start"]
             tags = []
             if read_groups:
-                tags.append(("RG", r["sample"]))
+                if rg_per_sample <= 1:
+                    tags.append(("RG", r["sample"]))
+                else:
+                    k = r.get("rg", sum(map(ord, r["name"])) % rg_per_sample)
+                    tags.append(("RG", f"{r['sample']}.{k}"))
             tags += list(r.get("tags", []))
             if extra_tags:
                 tags += list(extra_tags)
